@@ -44,7 +44,7 @@ def export(spec, flavor, translations, ctx=None):
     # record then holds the chunk's sequence and chunk-relative coordinates
     ch_ = spec.get("chunk")
     coll = mkcollection(spec["obj"], chunk_parent(spec["genome"], ch_[0], ch_[1]) if ch_ else chrom_parent(spec["genome"]))
-    colls = [coll] + [mkcollection(m_["obj"], chrom_parent(m_["genome"], name="chr%d" % (k_ + 2)), sequence_name="chr%d" % (k_ + 2)) for k_, m_ in enumerate(spec.get("more") or [])]
+    colls = [coll] + [mkcollection(m_["obj"], chrom_parent(m_["genome"], name=m_.get("name", "chr%d" % (k_ + 2))), sequence_name=m_.get("name", "chr%d" % (k_ + 2))) for k_, m_ in enumerate(spec.get("more") or [])]
     buf = io.StringIO()
     with warnings.catch_warnings():
         warnings.simplefilter("ignore")
@@ -146,7 +146,7 @@ def check_genbank(spec, ctx):
                 if k_ == 0 and spec.get("chunk"):
                     g_ = g_[spec["chunk"][0]:spec["chunk"][1]]
                 ctx.eq("sequence", str(rec.seq).upper(), g_.upper())
-                ctx.eq("record_name", rec.name, "chr%d" % (k_ + 1))
+                ctx.eq("record_name", rec.name, "chr1" if k_ == 0 else (spec["more"][k_ - 1].get("name", "chr%d" % (k_ + 1))))
                 exp = [(t_, [(a_ - sh_, b_ - sh_) for a_, b_ in bl_], *rest_) for t_, bl_, *rest_ in expected_features(o_, flavor)]
                 got = [(f.type, blocks_of(f), strand_of(f)) for f in rec.features]
                 if not ctx.eq("features[%s]" % flavor, got, [(t, b, s) for t, b, s, *_ in exp]):
@@ -183,6 +183,10 @@ def check_genbank(spec, ctx):
                     if "translation" in (t.get("qualifiers") or {}):
                         ctx.label("stale_translation_qualifier")
             if translations:
+                continue
+            if any(m_.get("name") == "chr1" for m_ in (spec.get("more") or [])):
+                # two records named alike (a reference and an edited copy in one file): writer clauses only
+                ctx.label("records_with_the_same_name")
                 continue
             if any(len(gn["transcripts"]) > 1 for gn in genes):
                 # (b)/(c) are claimed for one gene model per gene (isoforms sharing a start cannot be paired by feature order)
@@ -254,8 +258,13 @@ def strat_genbank(draw, tier="quick"):
         members_lo = min([t["exons"][0][0] for gn in sp["obj"]["genes"] for t in gn["transcripts"]] + [f["blocks"][0][0] for c in sp["obj"]["feature_collections"] for f in c["features"]])
         members_hi = max([t["exons"][-1][1] for gn in sp["obj"]["genes"] for t in gn["transcripts"]] + [f["blocks"][-1][1] for c in sp["obj"]["feature_collections"] for f in c["features"]])
         sp["chunk"] = [draw(st.integers(0, members_lo)), draw(st.integers(members_hi, len(sp["genome"])))]
-    if draw(st.integers(0, 3)) == 0:
+    r_ = draw(st.integers(0, 7))
+    if r_ <= 1:
         sp["more"] = [draw(_one_record("s%d" % k, max_genes=2)) for k in range(draw(st.integers(1, 2)))]
+    elif r_ == 2 and not sp.get("chunk") and len(sp["genome"]) > 1:
+        # the same annotation on a second molecule of the same name and length but other bases (an edited copy of chr1)
+        g2 = sp["genome"][1:] + sp["genome"][:1]
+        sp["more"] = [{"obj": json.loads(json.dumps(sp["obj"])), "genome": g2, "name": "chr1"}]
     return sp
 
 
